@@ -131,6 +131,38 @@ def is_monitor_failure(r):
     return bool(r["verdict"]) or r["sdiff"] is not None
 
 
+def fixed_cc_replays(pid):
+    """repaired findings whose replay is a stand-alone C++ program (graphs outside the operation languages): built against
+    the current tree under ASan+UBSan and run with every listed argument; a sanitizer report means the defect is back"""
+    import subprocess
+    out = []
+    for e in common.known_findings(pid):
+        rp = e.get("replay") or ""
+        if e.get("status") != "fixed" or not rp.endswith(".cc") or (e.get("properties") or [pid])[0] != pid:
+            continue
+        src = os.path.join(common.VERIF, rp)
+        if not os.path.exists(src):
+            out.append({"input": rp, "name": rp, "impl": "", "model": "", "detail": "replay of the repaired finding %s is missing" % e["id"]})
+            continue
+        rexe, rlog = common.build_harness(src, "replay_" + e["id"].lower())
+        if not rexe:
+            out.append({"input": open(src).read()[:4000], "name": rp, "impl": "", "model": "",
+                        "detail": "replay of the repaired finding %s does not build against the current tree: %s" % (e["id"], rlog[-600:])})
+            continue
+        env = dict(os.environ)
+        env.update(runtime.SAN_ENV)
+        for a in (e.get("replay_arg_sets") or [[]]):
+            pr = subprocess.run([rexe] + [str(x) for x in a], stdout=subprocess.PIPE, stderr=subprocess.PIPE, text=True, timeout=120,
+                                env=env, errors="replace")
+            v = runtime.classify_stderr(pr.returncode, pr.stderr)
+            if v:
+                out.append({"input": "// run with arguments %s\n%s" % (a, open(src).read()[:6000]), "name": rp, "impl": pr.stdout[-500:],
+                            "model": "", "verdict": v, "stderr": pr.stderr[-2500:],
+                            "detail": "the repaired finding %s is back: %s (arguments %s): %s" % (e["id"], rp, a, v)})
+                break
+    return out
+
+
 def run(ctx, mod):
     """the correspondence() of a runtime-family property module"""
     t0 = time.time()
@@ -169,6 +201,7 @@ def run(ctx, mod):
     extra_mon = []
     if hasattr(mod, "post_monitor"):
         extra_mon = mod.post_monitor(ctx, dict(zip(names, res)))
+    extra_mon = list(extra_mon) + fixed_cc_replays(mod.PID)
     # shrink the first failing / diverging programs
     out_mon, out_dis = list(extra_mon), []
     for (r, nm, what) in mon[:3]:
